@@ -155,7 +155,12 @@ func c12Body(x *explore.Ctx, connIdx int, bytePos int) {
 			rh = http.Header{"Sec-Websocket-Protocol": {v}}
 		}
 	} else {
-		switch x.Choose(8, "responseHeader") {
+		switch x.Choose(9, "responseHeader") {
+		case 8: // more header bytes than any internal buffer holds
+			rh = http.Header{}
+			for i := 0; i < 24; i++ {
+				rh[fmt.Sprintf("X-Long-%02d", i)] = []string{strings.Repeat(string(rune('a'+i)), 300)}
+			}
 		case 1:
 			rh = http.Header{"X-App": {"1"}}
 		case 2:
